@@ -296,6 +296,10 @@ inline EncResult encode(const GeomDef &g, const PointCloud &pc, const Mesh *m, c
     EncoderOptions o = EncoderOptions::CreateDefaultOptions();
     if (c.split_on_seams >= 0) o.SetGlobalBool("split_mesh_on_seams", c.split_on_seams != 0);
     if (c.compress_connectivity) o.SetGlobalBool("compress_connectivity", true);
+    // ExpertEncoder::SetEncodingSubmethod (called below as well) stores the option "encoding_submethod", which nothing reads; the
+    // Edgebreaker encoder reads "edgebreaker_method". Set that option directly, otherwise "valence" configurations silently run the
+    // standard traversal on every mesh below 1000 faces.
+    if (c.eb_method >= 0) o.SetGlobalInt("edgebreaker_method", c.eb_method);
     e->Reset(o);
     e->SetSpeedOptions(c.speed_enc, c.speed_dec);
     if (c.method >= 0) e->SetEncodingMethod(c.method);
